@@ -189,7 +189,12 @@ func checkMain(args []string) int {
 			}
 			budget := j.BudgetS
 			if budget == 0 {
-				budget = 1500
+				// wall-clock safety nets, generous because the machine may be loaded: the registered
+				// bounds finish in a fraction of this on an idle 16-core box
+				budget = 1800
+				if *tier == "thorough" {
+					budget = 5400
+				}
 			}
 			spec := symx.JobSpec{Property: *prop, Name: j.Name, Repo: repo, Pkg: j.Pkg, Files: files, Entry: j.Entry, Solver: solver,
 				Params: ps, MaxPaths: j.MaxPaths, BudgetS: budget, KFOpen: kfOpenIDs, Must: j.Must,
